@@ -103,6 +103,8 @@ structure Graph where
   atoi : List (String × Option Int) := []
   pfloat : List (String × Option (Int × Nat)) := []
   pbool : List (String × Option Bool) := []
+  jstr : List (Val × String) := []
+  maps : List (String × List (String × Val)) := []
   rxc : List (String × Bool) := []
   rxm : List ((String × String) × Bool) := []
   down : List (Nat × Option DownRes) := []
@@ -117,6 +119,7 @@ structure Inp where
   spans : List SpanIn := []        -- in arrival order
   g : Graph := {}
   bad : Bool := false              -- an `ext` line could not be read
+  nested : Bool := false           -- CheckNestedFields (case header)
 
 def b01 (b : Bool) : String := if b then "1" else "0"
 
@@ -140,6 +143,15 @@ def addExt (g : Graph) (bad : Bool) (e : List String) (evalOnly : Bool) : Graph 
     else if r == "1" then ({ g with pbool := (dec s, some true) :: g.pbool }, bad)
     else if r == "0" then ({ g with pbool := (dec s, some false) :: g.pbool }, bad)
     else (g, true)
+  | ["jstr", v, "=", r] => match parseVal v with
+    | some v => if r == "err" then (g, true) else ({ g with jstr := (v, dec r) :: g.jstr }, bad)
+    | none => (g, true)
+  | ["map", mid, "=", ents] =>
+    if ents == "-" then ({ g with maps := (mid, []) :: g.maps }, bad) else
+    let es := (ents.splitOn ",").map fun e => match e.splitOn "~" with
+      | [k, vt] => (parseVal vt).map fun v => (dec k, v)
+      | _ => none
+    if es.all Option.isSome then ({ g with maps := (mid, es.filterMap id) :: g.maps }, bad) else (g, true)
   | ["rxc", p, "=", r] => if evalOnly then ({ g with rxc := (dec p, r == "1") :: g.rxc }, bad) else (g, true)
   | ["rxm", p, s, "=", r] => if evalOnly then ({ g with rxm := ((dec p, dec s), r == "1") :: g.rxm }, bad) else (g, true)
   | ["down", i, "=", "missing"] => match i.toNat? with
@@ -162,6 +174,7 @@ def extOf (g : Graph) : Ext where
   pfloat s := (g.pfloat.lookup s).getD none
   pbool s := (g.pbool.lookup s).getD none
   rxCompiles p := (g.rxc.lookup p).getD false
+  jsonStr v := (g.jstr.lookup v).getD ""
   rxMatch p s := (g.rxm.lookup (p, s)).getD false
 
 def parseScope (s : String) : Scope :=
@@ -216,7 +229,8 @@ def applyInput (st : Inp) (op : List String) (exts : List (List String)) : Optio
   | _ => none
 
 def traceOf (st : Inp) : Trace :=
-  { spans := st.spans.map (·.span), root := (st.spans.reverse.find? (·.root)).map (·.span) }
+  { spans := st.spans.map (·.span), root := (st.spans.reverse.find? (·.root)).map (·.span),
+    nested := st.nested, maps := st.g.maps }
 
 /-! ## completeness of the `ext` graphs for one evaluation (nothing is ever defaulted silently) -/
 
@@ -225,7 +239,22 @@ def condVals (c : Cond) : List Val := c.val :: (c.items.getD [])
 def missingExt (st : Inp) (g : Graph) : Option String :=
   let t := traceOf st
   let count : Val := .int t.spans.length
-  let spanVals := (t.spans.flatMap fun s => s.data.map (·.2)) ++ [.nil, count]
+  let flatVals := t.spans.flatMap fun s => s.data.map (·.2)
+  -- values nested in map-valued fields (by reference through `maps`), to any depth used here
+  let step (vs : List Val) : List Val := vs.flatMap fun v => match v with
+    | .other id => ((g.maps.lookup id).getD []).map (·.2)
+    | _ => []
+  let l1 := step flatVals
+  let l2 := step l1
+  let l3 := step l2
+  let l4 := step l3
+  let reach := flatVals ++ l1 ++ l2 ++ l3 ++ l4
+  let mapIds := reach.filterMap fun v => match v with
+    | .other id => if id.startsWith "M" then some id else none
+    | _ => none
+  if let some id := mapIds.find? (fun id => (g.maps.lookup id).isNone) then some ("map:" ++ id) else
+  if let some v := reach.find? (fun v => (g.jstr.lookup v).isNone) then some ("jstr:" ++ valTok v) else
+  let spanVals := reach ++ reach.map (fun v => Val.str ((g.jstr.lookup v).getD "")) ++ [.nil, count]
   let conds := st.rules.flatMap (·.conds)
   let vals := spanVals ++ conds.flatMap condVals
   match vals.find? (fun v => (g.fmt.lookup v).isNone) with
@@ -264,7 +293,7 @@ def reasonStr : Reason → String
   | .badRule sc n => scopePrefix sc ++ "bad_rule:" ++ n
 
 def cellStr (E : Ext) (t : Trace) (c : Cond) (s : Span) : String :=
-  let x := extract t s c
+  let x := extract E t s c
   let fl := (if x.ex then 1 else 0) + (if x.cor then 2 else 0) + (if condOnSpan E t c s then 4 else 0)
   toString fl ++ valTok x.val
 
@@ -323,14 +352,48 @@ def mk (sig what : String) : Fail := { prop := "C08", sig := "C08:" ++ sig, what
 /-- documented extraction: the first of the condition's fields that is present, where a `root.`
 field is looked up in the root span (skipped when there is none) and any other in the span itself;
 `?.NUM_DESCENDANTS` is the number of spans -/
-def specExtract (t : Trace) (s : Span) (c : Cond) : Val × Bool :=
+def specExtract (E : Ext) (t : Trace) (s : Span) (c : Cond) : Val × Bool :=
   if c.field == numDescendants then (.int t.spans.length, true) else
   let cands := (effFields c).filterMap fun f =>
     if hasPrefix f rootPrefix then t.root.bind fun r => r.data.lookup (dropPrefix f rootPrefix)
     else s.data.lookup f
   match cands with
   | v :: _ => (v, true)
-  | [] => (.nil, false)
+  | [] =>
+    if !t.nested then (.nil, false) else
+    -- documented: after all flat lookups, each field as a dotted path into nested maps
+    let nest := (effFields c).filterMap fun f =>
+      if hasPrefix f rootPrefix then t.root.bind fun r => nestedGet t.maps r.data (splitDots (dropPrefix f rootPrefix))
+      else nestedGet t.maps s.data (splitDots f)
+    match nest with
+    | v :: _ => (.str (E.jsonStr v), true)
+    | [] => (.nil, false)
+
+/-- Classification of an extraction that differs from the documented one in the nested phase
+(no field present flat, `CheckNestedFields` on): which of the code's two known short-comings
+explains the value it returned.  `none`: neither does. -/
+def nestedSig (E : Ext) (t : Trace) (s : Span) (c : Cond) (implEx : Bool) (implVal : Option Val) : Option String :=
+  let fs := effFields c
+  let flat := fs.filterMap fun f =>
+    if hasPrefix f rootPrefix then t.root.bind fun r => r.data.lookup (dropPrefix f rootPrefix) else s.data.lookup f
+  if !t.nested || !flat.isEmpty then none else
+  let sp := lastSpan t s fs
+  -- what the code does: every field verbatim as a path, in the span the flat loop looked at last
+  let hit := fs.findSome? fun f => (nestedGet t.maps sp.data (splitDots f)).map fun v => (f, v)
+  match hit with
+  | some (f, v) =>
+    if implEx && implVal == some (.str (E.jsonStr v)) then
+      if hasPrefix f rootPrefix then some "nested-root-prefix-taken-as-path" else some "nested-field-read-from-root-span"
+    else none
+  | none =>
+    if implEx then none else
+    -- the documented lookup finds something the code does not
+    let docHit := fs.find? fun f =>
+      if hasPrefix f rootPrefix then (t.root.bind fun r => nestedGet t.maps r.data (splitDots (dropPrefix f rootPrefix))).isSome
+      else (nestedGet t.maps s.data (splitDots f)).isSome
+    match docHit with
+    | some f => if hasPrefix f rootPrefix then some "nested-root-field-not-resolved" else some "nested-field-not-resolved-after-root-field"
+    | none => none
 
 def absentSig (c : Cond) : String :=
   match c.op with
@@ -369,10 +432,11 @@ def monEval (st : Inp) (g : Graph) (obs : String) : List Fail :=
       let absent := ns > 0 && cells.all (fun x => !x.ex) && c.op != .notEx && cells.any (·.m)
       (if absent then [mk (absentSig c) s!"rule {r.name}: {opWord c.op} (datatype {dtWord c.dt}) matched although no span has the field"] else []) ++
       ((cells.zip t.spans).flatMap fun (x, s) =>
-        let (v, ex) := specExtract t s c
+        let (v, ex) := specExtract E t s c
         if x.ex == ex && x.val == some v then [] else
-          let sig := if c.field == numDescendants then "num-descendants" else if usesRoot c then "root-prefix" else "fields-first-present"
-          [mk sig s!"rule {r.name}: extracted {(x.val.map valTok).getD "?"} exists={x.ex}, first present field gives {valTok v} exists={ex}"]).take 1 ++
+          let sig := if c.field == numDescendants then "num-descendants" else (nestedSig E t s c x.ex x.val).getD (if usesRoot c then "root-prefix" else "fields-first-present")
+          [mk sig s!"rule {r.name}: extracted {(x.val.map valTok).getD "?"} exists={x.ex}, documented lookup gives {valTok v} exists={ex}"]).foldl
+            (fun (acc : List Fail) f => if acc.any (·.sig == f.sig) then acc else acc ++ [f]) [] ++
       -- (5) the operator itself, on the value the implementation extracted from a span that has the field
       (cells.flatMap fun x =>
         match x.val with
@@ -426,15 +490,16 @@ def rulesMon (st : Inp) (op : List String) (exts : List (List String)) (obs : Op
   | none =>
     match op, obs with
     | ["eval", _], some o =>
+      if o.startsWith "panic" then (st, [mk "sampler-panic" ("GetSampleRate / rule evaluation panicked: " ++ o)]) else
       let (g, bad) := addExts st.g st.bad exts true
       let keep : Graph := { g with rxc := [], rxm := [], down := [], intn := [] }
       ({ st with g := keep, bad := bad }, if bad || (missingExt st g).isSome then [] else monEval st g o)
     | _, _ => (st, [])
 
 def comp : Component Inp Inp where
-  init := fun _ => {}
+  init := fun args => { nested := kv args "nested" == some "1" }
   step := rulesStep
-  minit := fun _ => {}
+  minit := fun args => { nested := kv args "nested" == some "1" }
   mon := rulesMon
 
 def main : IO Unit := do runLoop comp (← IO.getStdin)
